@@ -85,13 +85,17 @@ def main():
     tp = os.path.join(ROOT, "thorough_summary.txt")
     if os.path.exists(tp):
         out.append("### 10.4b Thorough tier on the unchanged tree (wall-capped per property; from thorough_summary.txt)\n")
-        out.append("| property | exit | runs | evaluations | distinct | wall s | unlisted violations |")
-        out.append("|---|---|---|---|---|---|---|")
+        out.append("| pass | property | exit | runs | evaluations | distinct | wall s | unlisted violations |")
+        out.append("|---|---|---|---|---|---|---|---|")
         import re
+        npass = 1
         for l in open(tp):
+            if l.startswith("# pass"):
+                npass += 1
+                continue
             m = re.match(r"(C\d+) rc=(\d+) seconds=(\d+) check \S+ thorough: runs=(\d+) evaluations=(\d+) nontrivial_runs=(\d+) distinct=(\d+) wall=([\d.]+)s.*? (\d+) violations", l)
             if m:
-                out.append("| %s | %s | %s | %s | %s | %s | %s |" % (m.group(1), m.group(2), m.group(4), m.group(5), m.group(7), m.group(8), m.group(9)))
+                out.append("| %d | %s | %s | %s | %s | %s | %s | %s |" % (npass, m.group(1), m.group(2), m.group(4), m.group(5), m.group(7), m.group(8), m.group(9)))
         out.append("")
     gen = "\n".join(out)
     p = os.path.join(ROOT, "DESIGN.md")
